@@ -59,6 +59,7 @@ type LoopSpec struct {
 
 type Contract struct {
 	Key          string
+	Preserves    []string // with `modifies *`: struct types of this package whose field heaps the function leaves untouched
 	Extern       bool
 	Iface        bool
 	Mode         string
@@ -110,6 +111,7 @@ type ContractSet struct {
 	Lemmas         map[string][]*Clause // opaque predicate -> sufficient conditions (over the predicate's parameters)
 	Axioms         []*Clause // global assumptions about package-level state (reported), e.g. initialised globals
 	UnframedTypes  map[string]bool
+	Guarded        map[string]string // package-level variable -> package-level *sync.Mutex that guards it
 	OwnedFields    map[string]bool // "T.f": the backing array / map stored in this field belongs exclusively to the object
 	PooledTypes    map[string]bool // immutable-by-default types of which scratch copies live in a pool
 	TypeInvs map[string][]*Clause // struct type name -> invariants over `self` (pointer to the struct)
@@ -203,6 +205,17 @@ func (cs *ContractSet) parseFile(fname, src string) error {
 			cs.Axioms = append(cs.Axioms, &Clause{Text: rest, Expr: e, Line: where})
 			cs.NAssume++
 			continue
+		case "guarded":
+			// guarded <global> by <mutex global>: every load and store of the global needs the mutex held
+			f := strings.Fields(rest)
+			if len(f) != 3 || f[1] != "by" {
+				return fail("guarded <global> by <mutex global>")
+			}
+			if cs.Guarded == nil {
+				cs.Guarded = map[string]string{}
+			}
+			cs.Guarded[f[0]] = f[2]
+			continue
 		case "owned_fields":
 			for _, f := range strings.Split(rest, ",") {
 				if f = strings.TrimSpace(f); f != "" {
@@ -295,6 +308,10 @@ func (cs *ContractSet) parseFile(fname, src string) error {
 		if word == "loop" {
 			w2, r2 := splitWord(rest)
 			n, err := strconv.Atoi(strings.TrimSuffix(w2, ":"))
+			if w2 == "*" {
+				// `loop * invariant e`: e is an invariant of every loop of the function (kept under key -1)
+				n, err = -1, nil
+			}
 			if err != nil {
 				return fail("bad loop ordinal")
 			}
@@ -353,7 +370,7 @@ func (cs *ContractSet) parseFile(fname, src string) error {
 				}
 				cur.CaseLens = append(cur.CaseLens, n)
 			}
-		case word == "unroll" && loopNo > 0:
+		case word == "unroll" && loopNo != 0:
 			cur.Loops[loopNo].Unroll = true
 		case word == "modifies":
 			cur.HasModifies = true
@@ -372,10 +389,16 @@ func (cs *ContractSet) parseFile(fname, src string) error {
 				if err != nil {
 					return fail("modifies: %v", err)
 				}
-				if loopNo > 0 {
+				if loopNo != 0 {
 					cur.Loops[loopNo].Modifies = append(cur.Loops[loopNo].Modifies, e)
 				} else {
 					cur.Modifies = append(cur.Modifies, e)
+				}
+			}
+		case word == "preserves":
+			for _, part := range splitTop(rest, ',') {
+				if part = strings.TrimSpace(part); part != "" {
+					cur.Preserves = append(cur.Preserves, part)
 				}
 			}
 		case word == "known_finding":
@@ -419,6 +442,9 @@ func (cs *ContractSet) parseFile(fname, src string) error {
 				}
 				ls := cur.Loops[loopNo]
 				c.Ord = len(ls.Invariants) + 1
+				if loopNo < 0 {
+					c.Ord += 100
+				}
 				ls.Invariants = append(ls.Invariants, c)
 			case "assume":
 				cur.Assumes = append(cur.Assumes, c)
